@@ -78,7 +78,8 @@ def build(ctx):
         bad = {p: v for p, v in memo_obj_writes.items() if p != ANNOTATION}
         # in-place mutation of the memoised object itself (sort/append/... on the stored list or dict) by anything but its own setattr
         for p_, v_ in w.items():
-            if any(p_ == "self." + f for f in memo_fields) and v_[2] not in ("setattr", "delattr", "del"):
+            if any(p_ == "self." + f for f in memo_fields) and v_[2] not in ("setattr", "delattr", "del") \
+                    and not (v_[2] == "store" and fillers.get(v_[0]) == p_[5:]):       # the filler's own `self._field = value` is the fill, like its setattr
                 bad[p_] = v_
         ctx.ground(f"crystal.Crystal.{name}/assigns/memo.readonly", not bad, tag="F",
                    clause="no store into an object held by a memo field (except the write-once asym_mol_idx annotation made by symmetry_unique_molecules)",
@@ -119,6 +120,8 @@ def build(ctx):
             if isinstance(n, ast.Call) and isinstance(n.func, ast.Name) and n.func.id == "setattr" and len(n.args) == 3 and isinstance(n.args[1], ast.Constant) \
                     and n.args[1].value == field:
                 stored_local = ast.unparse(n.args[2])
+            if isinstance(n, ast.Assign) and any(isinstance(t_, ast.Attribute) and ast.unparse(t_) == f"self.{field}" for t_ in n.targets):
+                stored_local = ast.unparse(n.value)
         ok_ret = all(r in (f"getattr(self, '{field}')", f"self.{field}", stored_local) for r in rets)
         ctx.ground(f"crystal.Crystal.{meth}/memo.fill/{field}/returns_stored", ok_ret, tag="F", clause="every return yields the stored value", detail=rets, witness=rets, fn=fn(meth))
 
